@@ -38,6 +38,7 @@ def report_obligations(p, d, prefix=''):
         if ok:
             p.res['obligations'] += 1
             p.res['discharged'] += 1
+            p.res['nontrivial'] += 1
         else:
             key = (name, str(detail))
             if key in seen:
